@@ -821,12 +821,31 @@ void uninitialized_copy_aux(It1 first1, It1 last1, It2 first2, It2 last2, planar
     }
 }
 
+/// std::uninitialized_copy into iterators that dereference to a real reference
+template <typename It1, typename It2>
+BOOST_FORCEINLINE
+void uninitialized_copy_range(It1 first1, It1 last1, It2 first2, std::true_type)
+{
+    std::uninitialized_copy(first1, last1, first2);
+}
+
+/// Destination iterators that dereference to a proxy (bit-aligned pixels): std::uninitialized_copy would placement-construct
+/// a temporary proxy object instead of storing the pixel; such pixels are bit fields of raw bytes, assign through the proxy.
+template <typename It1, typename It2>
+BOOST_FORCEINLINE
+void uninitialized_copy_range(It1 first1, It1 last1, It2 first2, std::false_type)
+{
+    for (; first1 != last1; ++first1, ++first2)
+        *first2 = *first1;
+}
+
 /// std::uninitialized_copy for interleaved or mixed(planar into interleaved) iterators
 template <typename It1, typename It2>
 BOOST_FORCEINLINE
 void uninitialized_copy_aux(It1 first1, It1 last1, It2 first2, It2, mixed_to_interleaved_type)
 {
-    std::uninitialized_copy(first1, last1, first2);
+    uninitialized_copy_range(first1, last1, first2,
+        typename std::is_lvalue_reference<typename std::iterator_traits<It2>::reference>::type());
 }
 
 /// std::uninitialized_copy for interleaved to planar iterators
